@@ -4,6 +4,6 @@ CONSTANT KnownDeviations = ${KnownDeviations}
 SPECIFICATION TraceSpec
 CONSTRAINT HW
 INVARIANTS Schedule
-PROPERTIES Classification HealthyMeansProbedOK DueRoundIsReal SyntheticIsQuiet RecoveryCallback
+PROPERTIES Classification HealthyMeansProbedOK DueRoundIsReal SyntheticIsQuiet TRecoveryCallback
 POSTCONDITION Accepted
 CHECK_DEADLOCK FALSE
